@@ -132,6 +132,11 @@ func Hist(t *rapid.T, o HistOpts) *History {
 			// (an unauthorised operation names an already consumed or the current commitment as its next one every third time)
 			if (o.Cycles && rapid.IntRange(0, 5).Draw(t, "cycle") == 0) || (forged && rapid.IntRange(0, 2).Draw(t, "forgedCycle") == 0) {
 				anc := append(append([]*keys.Key{}, st.updAnc...), st.upd)
+				if rapid.IntRange(0, 2).Draw(t, "crossChain") == 0 {
+					// the other chain's commitments: consumed recovery commitments, and the one in force (which is consumed
+					// as well by the time the update chain runs if a recover or deactivate follows)
+					anc = append(append([]*keys.Key{}, st.recAnc...), st.rec)
+				}
 				spec.Opt.NextUpdate = asm.Commit(rapid.SampledFrom(anc).Draw(t, "cycleTarget"), code)
 				cyc = true
 			}
@@ -140,7 +145,12 @@ func Hist(t *rapid.T, o HistOpts) *History {
 			spec.Opt.AnchorOrigin = rapid.SampledFrom([]interface{}{nil, "origin-r"}).Draw(t, "recoverOrigin")
 			if (o.Cycles && rapid.IntRange(0, 5).Draw(t, "cycle") == 0) || (forged && rapid.IntRange(0, 2).Draw(t, "forgedCycle") == 0) {
 				anc := append(append([]*keys.Key{}, st.recAnc...), st.rec)
-				spec.Opt.NextRecovery = asm.Commit(rapid.SampledFrom(anc).Draw(t, "cycleTarget"), code)
+				if rapid.IntRange(0, 2).Draw(t, "crossChain") == 0 {
+					// hands a recovery commitment that is consumed by then on as the next *update* commitment
+					spec.Opt.NextUpdate = asm.Commit(rapid.SampledFrom(anc).Draw(t, "cycleTarget"), code)
+				} else {
+					spec.Opt.NextRecovery = asm.Commit(rapid.SampledFrom(anc).Draw(t, "cycleTarget"), code)
+				}
 				cyc = true
 			}
 		}
